@@ -261,6 +261,7 @@ class SimTarget:
         self.flavor = "stored"
 
     def plan(self, boot, meta, rnd):
+        self.oneshot = bool(meta.get("oneshot"))
         n = len(boot["elig"])
         pids = SIM_PIDS[:n]
         rnd.shuffle(pids)
@@ -303,8 +304,23 @@ class SimTarget:
                 if k0["rl"][s][r] != (-1, -1):
                     p.rlimits[r] = k0["rl"][s][r]
         self.objs = [ps.Process(pid) for pid in mp.pids]
+        self._leave_oneshot()
+        if getattr(self, "oneshot", False):
+            # the whole behaviour runs inside one oneshot() block per object: a get
+            # after a set must still be what the kernel reports now
+            import contextlib
+            self._stack = contextlib.ExitStack()
+            for p in self.objs:
+                self._stack.enter_context(p.oneshot())
+                p.name()      # the shared per-process records are read (and memoised) before any set
+                p.uids()
         w.set_log[:] = []
         return self.kstate()
+
+    def _leave_oneshot(self):
+        st, self._stack = getattr(self, "_stack", None), None
+        if st is not None:
+            st.close()
 
     def calls(self, calls):
         ps = self.ps
@@ -352,10 +368,10 @@ class SimTarget:
         return log
 
     def end(self):
-        pass
+        self._leave_oneshot()
 
     def close(self):
-        pass
+        self._leave_oneshot()
 
 
 class LiveTarget:
@@ -902,6 +918,7 @@ def meta_for(name, k, seed, rnd):
                 m["finite"] = [1]
     if name == "affinity":
         m["wide_cpus"] = bool(k % 2)
+    m["oneshot"] = k % 3 == 2        # simulated target only
     return m
 
 
@@ -911,6 +928,8 @@ def _tour_path(name, c, seed, per_class, maxlen):
     for f in ("Settings.tla",):
         h.update(open(os.path.join(tlc.SPEC, f), "rb").read())
     h.update(repr((name, sorted(c.items(), key=str), seed, per_class, maxlen)).encode())
+    import inspect
+    h.update(inspect.getsource(meta_for).encode())      # the metadata are part of the cached jobs
     return os.path.join(core.VERIF, ".cache", "dumps", "SettingsTour-%s-%s.pkl" % (name, h.hexdigest()[:20]))
 
 
